@@ -9,7 +9,7 @@ import gen
 import exact as ex
 
 PROP = 'C16'
-MOM = {'Moments4': 4, 'M4': 4, 'M5': 5, 'M6': 6, 'M8': 8, 'M10': 10}
+MOM = {'Moments4': 4, 'M4': 4, 'M5': 5, 'M6': 6, 'M7': 7, 'M8': 8, 'M9': 9, 'M10': 10}
 SINGLE = ['Mean', 'Variance', 'Skewness', 'Kurtosis', 'Min', 'Max', 'Quantile'] + list(MOM)
 PAIR = ['WeightedMean', 'WeightedMeanWithError', 'Covariance']
 RULE = ('The sentinel table transcribed from the property statement and the doc comments: (type x accessor x state) -> '
